@@ -297,6 +297,11 @@ func runC17(c *fw.Case) {
 				c.Violate("api/failing-wal-append-not-reported", "Delete(%s) -> %s / %s although the WAL cannot append\n%s", showB(k), c17ErrClass(es), c17ErrClass(eb), ctx())
 				return
 			}
+			if es != nil && len(k.b) > 0 && !opts.DirectIOWAL {
+				// Put accepts every non-empty key: a Delete that refuses one of them does not "accept and reject the same keys"
+				c.Violate("api/valid-delete-rejected", "Delete(%s) -> %s\n%s", showB(k), c17ErrClass(es), ctx())
+				return
+			}
 			if es == nil {
 				delete(model, string(k.b))
 			} else {
